@@ -356,11 +356,16 @@ def first_bad(R, S, lo, hi):
     return None, None
 
 
-def first_bad_m(R, M, lo, hi):
+def first_bad_m(R, M, S, flat, lo, hi):
+    """R vs M: function-level calls are compared exactly; history-level operations for which the driver applied a
+    site model are compared wherever the specification is defined"""
     for i in range(lo, hi):
         if M[i] in ("nomodel", "history"):
             continue
-        if R[i] != M[i]:
+        if flat[i].startswith("fn_"):
+            if R[i] != M[i]:
+                return i
+        elif S[i] != "unspec" and not match(R[i], M[i]):
             return i
     return None
 
@@ -479,7 +484,7 @@ def run(ctx):
         if i is not None and nviol < 4:
             nviol += 1
             report(ctx, h, kd)
-        jm = first_bad_m(R, M, lo, hi)
+        jm = first_bad_m(R, M, S, flat, lo, hi)
         if jm is not None and i is None and nbadm < 2:
             nbadm += 1
             txt = ["# C20: function-level call; library (R) vs Coq model LimitsModel (M) differ -- the model no longer",
@@ -490,7 +495,9 @@ def run(ctx):
     ctx.corr("drive_limits~LimitsSpec", histories=len(hists), by_kind=per_kind, operations=len(flat), op_mix=opmix,
              library_refusals=refused, library_acceptances=accepted, spec_unspecified_lines=unspec, boundary_hits=boundary,
              corpus_histories=len(corpus), sanitizer_reports=len(diag))
-    ctx.corr("sites~LimitsModel", function_level_calls=sum(1 for m in M if m not in ("nomodel", "history")),
+    ctx.corr("sites~LimitsModel", function_level_calls=sum(1 for l, m in zip(flat, M) if l.startswith("fn_") and m != "nomodel"),
+             history_operations_with_site_model=sum(1 for l, m, s_ in zip(flat, M, S) if not l.startswith("fn_") and
+                                                    m not in ("nomodel", "history") and s_ != "unspec"),
              mismatching_histories=nbadm)
 
 
@@ -499,7 +506,7 @@ def replay(ctx, path):
     rc, R, S, M, flat, diag = run_histories(ctx, [lines], "replay")
     bad = 0
     for i, l in enumerate(flat):
-        okm = M[i] in ("nomodel", "history") or M[i] == R[i]
+        okm = M[i] in ("nomodel", "history") or (R[i] == M[i] if l.startswith("fn_") else S[i] == "unspec" or match(R[i], M[i]))
         good = match(R[i], S[i]) and not R[i].startswith("crash") and R[i] != "missing" and okm
         bad += 0 if good else 1
         print("%s %-44s R: %-34s S: %-34s M: %s" % ("  " if good else "!!", l[:44], R[i][:34], S[i][:34], M[i][:40]))
